@@ -887,7 +887,21 @@ FormatterToXML::accumDefaultEscape(
                 next = ((ch - 0xd800u) << 10) + next - 0xdc00u + 0x00010000u;
             }
 
-            writeNumberedEntityReference(next);
+            if (ch > m_maxCharacter)
+            {
+                writeNumberedEntityReference(next);
+            }
+            else
+            {
+                // The encoding has the pair: write it as it is.
+                accumContent(ch);
+                accumContent(chars[i]);
+            }
+        }
+        else if (0xdc00 <= ch && ch < 0xe000)
+        {
+            // A low surrogate without a high one in front of it.
+            throwInvalidUTF16SurrogateException(ch, getMemoryManager());
         }
         else 
         {
@@ -1267,6 +1281,7 @@ FormatterToXML::characters(
                 if((ch < SPECIALSSIZE &&
                     m_charsMap[ch] == 'S') ||
                     ch > m_maxCharacter ||
+                    (0xd800 <= ch && ch < 0xe000) ||
                     (m_isXML1_1 == true && XalanUnicode::charLSEP == ch))
                 {
                     accumContent(chars, firstIndex, i - firstIndex);
@@ -1373,6 +1388,7 @@ FormatterToXML::writeAttrString(
         if((ch < SPECIALSSIZE &&
             m_attrCharsMap[ch] == 'S') ||
             ch > m_maxCharacter ||
+            (0xd800 <= ch && ch < 0xe000) ||
             (m_isXML1_1 == true && XalanUnicode::charLSEP == ch))
         {
             accumContent(theString, firstIndex, i - firstIndex);
@@ -1497,6 +1513,11 @@ FormatterToXML::writeNormalizedChars(
                 writeNumberedEntityReference(
                     ((XalanUnicodeChar(c) - 0xd800u) << 10) + next - 0xdc00u + 0x00010000u);
             }
+            else if (0xdc00u <= unsigned(c) && unsigned(c) < 0xe000u)
+            {
+                // A low surrogate without a high one in front of it.
+                throwInvalidUTF16SurrogateException(c, getMemoryManager());
+            }
             else
             {
                 writeNumberedEntityReference(c);
@@ -1548,7 +1569,29 @@ FormatterToXML::writeNormalizedChars(
         {
             if(c <= m_maxCharacter)
             {
-                accumContent(c);
+                if (0xd800 <= c && c < 0xe000)
+                {
+                    // The encoding has the surrogates: only a pair is
+                    // written.
+                    if (c >= 0xdc00 ||
+                        i + 1 >= end ||
+                        !(0xdc00 <= ch[i + 1] && ch[i + 1] < 0xe000))
+                    {
+                        throwInvalidUTF16SurrogateException(c, getMemoryManager());
+                    }
+
+                    accumContent(c);
+                    accumContent(ch[++i]);
+                }
+                else
+                {
+                    accumContent(c);
+                }
+            }
+            else if (0xdc00 <= c && c < 0xe000)
+            {
+                // A low surrogate without a high one in front of it.
+                throwInvalidUTF16SurrogateException(c, getMemoryManager());
             }
             // This needs to go into a function...
             else if (0xd800 <= c && c < 0xdc00)
